@@ -71,16 +71,18 @@ class ScaleLinearCompuMethod(CompuMethod):
         # intervals exhibit the same sign (or are 0). For segments
         # with a slope of zero, COMPU-INVERSE-VALUE shall be used.
         self._is_invertible = True
-        ref_factor = self._segments[0].factor
+        # (the sign of a segment's slope is the sign of factor/denominator)
+        ref_factor = self._segments[0].factor * self._segments[0].denominator
         for i in range(0, len(self._segments) - 1):
             s0 = self.segments[i]
             s1 = self.segments[i + 1]
 
-            if ref_factor * s1.factor < 0:
+            s1_slope_sign = s1.factor * s1.denominator
+            if ref_factor * s1_slope_sign < 0:
                 self._is_invertible = False
                 break
-            if s1.factor != 0:
-                ref_factor = s1.factor
+            if s1_slope_sign != 0:
+                ref_factor = s1_slope_sign
 
             # both interval boundaries must not be infinite
             if s0.internal_upper_limit is None or \
